@@ -71,12 +71,30 @@ def date_texts(r, R):
             '%d/%d/%d' % (d.month, d.day, d.year)]
 
 
+PROBE_REF = dt.datetime(2019, 6, 12, 10, 30, 15)
+
+
+def probe_fixes(pp):
+    """Which of the three day-roll patches (/verif/findings/dtperiod/*.diff) the working tree carries, read off three
+    fixed probe inputs: '1' when the range is rolled over midnight (model variant *Fixed), '0' for the unpatched code."""
+    def rolled(meth, text):
+        try:
+            r = getattr(pp, meth)(text, PROBE_REF)
+            return '1' if r.success and r.future_value[0] < r.future_value[1] else '0'
+        except Exception:
+            return '0'
+    return (rolled('merge_two_time_points', 'from tomorrow 11pm to 2am') +
+            rolled('merge_two_time_points', 'from 5pm to tomorrow 3pm') +
+            rolled('merge_date_and_time_periods', 'tomorrow from 10pm to 1am'))
+
+
 class Cases:
     def __init__(self, ctx, cfg):
         self.ctx = ctx
         self.cfg = cfg
         self.pp = cfg.date_time_period_parser
         self.c = self.pp.config
+        self.fixes = probe_fixes(self.pp)
         self.out = []        # (driver line, implementation answer, description, class label)
         self.skipped = {}
 
@@ -112,9 +130,9 @@ class Cases:
             return self.skip('merge: a point without value')
         c1 = bool(p1.value.comment and p1.value.comment.endswith('ampm'))
         c2 = bool(p2.value.comment and p2.value.comment.endswith('ampm'))
-        line = 'dp.merge\t%s\t%s\t%s\t%s\t%s\t%s\t%s\t%d\t%d' % (
+        line = 'dp.merge\t%s\t%s\t%s\t%s\t%s\t%s\t%s\t%d\t%d\t%s' % (
             kind, fmt_dt(p1.value.future_value), fmt_dt(p1.value.past_value), tx(p1.timex_str),
-            fmt_dt(p2.value.future_value), fmt_dt(p2.value.past_value), tx(p2.timex_str), c1, c2)
+            fmt_dt(p2.value.future_value), fmt_dt(p2.value.past_value), tx(p2.timex_str), c1, c2, self.fixes)
         impl = guarded(lambda: show(self.pp.merge_two_time_points(text, R), True))
         self.add(line, impl, 'merge_two_time_points(%r, %s) [%s]' % (text, R, kind))
         return kind
@@ -142,9 +160,9 @@ class Cases:
         if not pr.value:
             return self.skip('datetp: date without value')
         fv = tp.value.future_value
-        line = 'dp.datetp\t%s\t%s\t%s\t%s\t%s\t%s\t%d' % (
+        line = 'dp.datetp\t%s\t%s\t%s\t%s\t%s\t%s\t%d\t%s' % (
             fmt_dt(pr.value.future_value), fmt_dt(pr.value.past_value), tx(pr.timex_str), tx(tp.value.timex),
-            fmt_dt(fv.start), fmt_dt(fv.end), 1 if tp.value.comment == 'ampm' else 0)
+            fmt_dt(fv.start), fmt_dt(fv.end), 1 if tp.value.comment == 'ampm' else 0, self.fixes)
         impl = guarded(lambda: show(self.pp.merge_date_and_time_periods(text, R), True))
         self.add(line, impl, 'merge_date_and_time_periods(%r, %s)' % (text, R))
         return True
@@ -396,6 +414,7 @@ def unit(ctx):
             if shown[op] <= 3:
                 ctx.report('correspondence', 'dtperiod-' + op[3:], '%s: implementation %s, model %s' % (desc, impl, m),
                            failing_input={'op': line, 'call': desc, 'implementation': impl, 'model': m})
+    ctx.extra['dtperiod_tree_variant'] = {'begin-date roll': cs.fixes[0], 'end-date roll': cs.fixes[1], 'date+period roll': cs.fixes[2]}
     ctx.extra['dtperiod_unit_families'] = dict(sorted(hist.items()))
     ctx.extra['dtperiod_unit_skipped'] = dict(sorted(cs.skipped.items()))
     ctx.sample({'op': rows[0][0], 'call': rows[0][2], 'implementation': rows[0][1]})
@@ -421,14 +440,19 @@ def pipeline_jobs(ctx):
         hb = r.randint(ha + 1, 23)
         ma, mb = r.choice([0, 0, 15, 30]), r.choice([0, 0, 45])
         a, b = clock(ha, ma), clock(hb, mb)
-        jobs += [('begin-date:ordered', 'from %s %s to %s' % (d1, a, b), R),
-                 ('begin-date:reversed', 'from %s %s to %s' % (d1, b, a), R),
-                 ('end-date:ordered', 'from %s to %s %s' % (a, d1, b), R),
-                 ('end-date:reversed', 'from %s to %s %s' % (b, d1, a), R),
-                 ('both-dates:same-day:ordered', 'from %s %s to %s %s' % (d1, a, d1, b), R),
-                 ('both-dates:same-day:reversed', 'from %s %s to %s %s' % (d1, b, d1, a), R),
-                 ('date+period:ordered', '%s from %s to %s' % (d1, a, b), R),
-                 ('date+period:cross-midnight', '%s from %s to %s' % (d1, b, a), R)]
+        day = [R.date() + dt.timedelta(days=1), d, R.date()][i % 3]
+        ta, tb = dt.time(ha, ma), dt.time(hb, mb)
+        on = lambda dd, t: dt.datetime.combine(dd, t)
+        nxt, prv = day + dt.timedelta(days=1), day - dt.timedelta(days=1)
+        # the 4th field: the (start, end) the stated date and clock times denote once the range is rolled over midnight
+        jobs += [('begin-date:ordered', 'from %s %s to %s' % (d1, a, b), R, (on(day, ta), on(day, tb))),
+                 ('begin-date:reversed', 'from %s %s to %s' % (d1, b, a), R, (on(day, tb), on(nxt, ta))),
+                 ('end-date:ordered', 'from %s to %s %s' % (a, d1, b), R, (on(day, ta), on(day, tb))),
+                 ('end-date:reversed', 'from %s to %s %s' % (b, d1, a), R, (on(prv, tb), on(day, ta))),
+                 ('both-dates:same-day:ordered', 'from %s %s to %s %s' % (d1, a, d1, b), R, (on(day, ta), on(day, tb))),
+                 ('both-dates:same-day:reversed', 'from %s %s to %s %s' % (d1, b, d1, a), R, None),
+                 ('date+period:ordered', '%s from %s to %s' % (d1, a, b), R, (on(day, ta), on(day, tb))),
+                 ('date+period:cross-midnight', '%s from %s to %s' % (d1, b, a), R, (on(day, tb), on(nxt, ta)))]
         lo, hi = sorted(r.sample(range(1, 12), 2))
         jobs += [('hour-pair:ordered', 'from %d to %d pm %s' % (lo, hi, d1), R),
                  ('hour-pair:ordered', 'between %d and %d %s' % (lo, hi, d1), R),
@@ -448,9 +472,14 @@ def pipeline_jobs(ctx):
 
 def pipeline(ctx):
     jobs = pipeline_jobs(ctx)
-    res = dtpipe.run([('en-us', q, R) for (_c, q, R) in jobs])
+    jobs = [j if len(j) == 4 else j + (None,) for j in jobs]
+    res = dtpipe.run([('en-us', q, R) for (_c, q, R, _x) in jobs])
+    common.setup_repo_imports()
+    from recognizers_date_time.date_time.english.common_configs import EnglishCommonDateTimeParserConfiguration
+    fixes = probe_fixes(EnglishCommonDateTimeParserConfiguration().date_time_period_parser)
+    repaired = {'begin-date': fixes[0] == '1', 'end-date': fixes[1] == '1', 'date+period': fixes[2] == '1'}
     ents, meta = [], []
-    for (cls, q, R), got in zip(jobs, res):
+    for (cls, q, R, expect), got in zip(jobs, res):
         ctx.count('dtperiod pipeline %s' % cls.split(':')[0])
         if isinstance(got, str):
             ctx.report('property', 'dtperiod:%s:error' % cls, '%r (reference %s): %s' % (q, R, got),
@@ -460,6 +489,16 @@ def pipeline(ctx):
             if e['values'] and e['type_name'].endswith('range') and e['end'] == len(q) - 1:
                 ents.append(e)
                 meta.append((cls, q, R))
+        # on a tree that carries the day-roll patch of this family: the stated date and clock times are the resolved ones,
+        # the end after the begin (on the unpatched tree the reversed classes are the recorded findings)
+        if expect and (repaired.get(cls.split(':')[0]) or cls.endswith(':ordered')):
+            want = tuple(x.strftime('%Y-%m-%d %H:%M:%S') for x in expect)
+            have = [(v.get('start'), v.get('end')) for e in got if e['values'] for v in e['values']]
+            if want not in have:
+                ctx.report('property', 'dtperiod:%s:end-points' % cls, 'en-us %r (reference %s): expected %s .. %s, got %r' % (
+                    q, R, want[0], want[1], have[:3]),
+                    failing_input={'culture': 'en-us', 'query': q, 'reference': str(R), 'expected': want, 'got': have[:3]},
+                    property_fails=True)
     for (cls, q, R), e, (tn, vs) in zip(meta, ents, dtcorpus.evaluate_wf(ents)):
         bad = [v for v, (s, d, t) in zip(e['values'], vs) if not t]
         if bad:
